@@ -90,7 +90,7 @@ def templates(ctx):
 
 
 def wildcard_templates():
-    return [{'name': 'weq', 'mode': 'weq'}, {'name': 'weq-refpath', 'mode': 'weq', 'via': True}]
+    return [{'name': 'weq', 'mode': 'weq'}, {'name': 'weq-refpath', 'mode': 'weq', 'via': True}, {'name': 'weq-self', 'mode': 'weq', 'self': True}]
 
 
 class Graph(HostObj):
@@ -131,6 +131,7 @@ def path(ex, t):
             elif k == 3: pairs.append((b'x', h.ref(list(b'zz'))))
             recs[b'r%d' % i] = h.dict_payload(pairs)
         start = h.dict_payload([(b'x', h.ref(list(b'r%d' % ex.pick(3))))] if not t.get('via') else [(b'x', h.ref(list(b'r0'))), (b'y', h.marker())])
+        if t.get('self'): start = recs[b'r0']      # the evaluated record is itself a node of the graph (it carries its own id)
         target = [b'r0', b'r1', b'r2', b'zz', b'q'][ex.pick(5)]
         tree = f.or_([f.and_([f.weq([list(b'x')], list(target))])])
         g = Graph(ex, recs)
